@@ -457,3 +457,5 @@ def run(chk):
     found = chk.guard("O1.1", "<runners>", c01.monitors_and_outcomes, chk) or {}
     chk.guard("O1.3", "<runners>", c01.propagation_to_run, chk, found)
     chk.guard("O1.5", META, c01.meta_chain, chk)
+    # ... and the failure / interrupt of a payload THREAD wakes the loop (thread-safe hand-over only)
+    chk.guard("O1.9", "<runners>", c01.thread_affinity, chk, found)
